@@ -42,7 +42,7 @@ type directives struct {
 
 func parseDirectives(files []string) (*directives, error) {
 	d := &directives{}
-	for _, f := range files {
+	for fi, f := range files {
 		fh, err := os.Open(f)
 		if err != nil {
 			return nil, err
@@ -64,9 +64,13 @@ func parseDirectives(files []string) (*directives, error) {
 			case "pkg":
 				d.pkg = val
 			case "entry":
-				d.entries = append(d.entries, strings.Fields(val)[0])
+				if fi == 0 { // included files contribute models and code, not entries
+					d.entries = append(d.entries, strings.Fields(val)[0])
+				}
 			case "thorough-entry":
-				d.tEntries = append(d.tEntries, strings.Fields(val)[0])
+				if fi == 0 {
+					d.tEntries = append(d.tEntries, strings.Fields(val)[0])
+				}
 			case "model":
 				fs := strings.Fields(val)
 				if len(fs) < 2 {
